@@ -210,7 +210,7 @@ func noPub() map[string]any {
 func emptyObs(b built) map[string]any {
 	return map[string]any{"built": false, "panic": b.panic, "route": b.route, "gotype": "", "ptype": "", "id": "00000000", "req": false,
 		"phas": false, "hasprefix": false, "prefix": "", "haskid": false, "kid": "", "kidset": false, "ckid": hex.EncodeToString([]byte(b.ckid)),
-		"unstable": []string{}, "nacc": 0, "pbuilt": false, "pbuiltR": false, "pfresh": false, "pfreshR": false, "pself": false,
+		"unstable": []string{}, "aliased": []string{}, "nacc": 0, "pbuilt": false, "pbuiltR": false, "pfresh": false, "pfreshR": false, "pself": false,
 		"self": false, "value": "", "secret": "", "pub": noPub()}
 }
 
@@ -346,6 +346,16 @@ func doCase(n int, c planCase) vt.Ev {
 		for _, m := range []string{"eq", "peq", "pubeq", "pubkeq"} {
 			if _, has := ev[m]; !has {
 				ev[m] = f
+			}
+		}
+	}
+	// last (it may damage a key object whose accessor hands out its own memory): overwrite every byte slice the
+	// accessors returned and look at the accessors again
+	for i := range bs {
+		if bs[i].k != nil {
+			k := bs[i].k
+			if p, _ := vt.Try(func() { obs[i]["aliased"] = aliased(k) }); p {
+				obs[i]["panic"] = true
 			}
 		}
 	}
